@@ -256,8 +256,26 @@ def tie_nof(ctx, ncases=None):
         kept.append(c)
         key = "%s/%s" % (c["kind"], "".join(c["modes"]))
         dist[c["kind"]] = dist.get(c["kind"], 0) + 1
-    bad = core.coq_eval_cases("k_nof", nc.COQ_HEADER, terms, shard=max(10, len(terms) // 8 + 1), jobs=8 if ctx.quick else 16)
+    # NumberOrderedForm.filter_terms (multi-condition, multi-mode reference powers incl. symbolic ones) vs PV.NOF.Mask
+    fcases = [dict(w) for w in FILTER_WITNESSES] + [gen_filter_case(ctx.rng) for _ in range(ctx.n(20, 400))]
+    with multiprocessing.Pool(8 if ctx.quick else 16) as pool:
+        fres = pool.map(_filter_worker, fcases, chunksize=1)
+    nmain = len(terms)
+    fkept = []
+    for c, r in zip(fcases, fres):
+        if not r["ok"]:
+            disagreements.append(dict(what="filter_terms raised: " + mask_str(c), input=dict(kind="filter", case=c), impl=r["err"], model="Ok"))
+            continue
+        terms.append(coq_mask_case(c, r["keys"]))
+        fkept.append((c, r))
+        dist["filter"] = dist.get("filter", 0) + 1
+    bad = core.coq_eval_cases("k_nof", MASK_HEADER, terms, shard=max(10, len(terms) // 8 + 1), jobs=8 if ctx.quick else 16)
     for i in bad:
+        if i >= nmain:
+            c, r = fkept[i - nmain]
+            disagreements.append(dict(what="terms kept by filter_terms differ from the model (PV.NOF.Mask): " + mask_str(c),
+                                      input=dict(kind="filter", case=c), impl=r["keys"], model="check_mask = false"))
+            continue
         c = kept[i]
         disagreements.append(
             dict(
@@ -268,14 +286,16 @@ def tie_nof(ctx, ncases=None):
             )
         )
     distinct = {core.canon([c["modes"], c["tree"]]) for c in kept if nontrivial_key(c)}
+    distinct |= {core.canon([c["modes"], c["x"], c["conds"], c["keep"]]) for c, r in fkept if 0 < len(r["keys"]) < r["nterms"]}
     stat_modes = {}
     for c in kept:
         for m in set(c["modes"]):
             stat_modes[m] = stat_modes.get(m, 0) + 1
     return dict(
-        cases=len(kept),
+        cases=len(kept) + len(fkept),
         nontrivial=len(distinct),
-        rule="distinct (modes, tree) with at least one product and two operator leaves",
+        rule="distinct (modes, tree) with at least one product and two operator leaves; plus distinct filter_terms cases "
+        "that keep some but not all terms",
         samples=[dict(modes=c["modes"], expr=nc.tree_str(c["tree"], c["modes"]), kind=c["kind"]) for c in kept[:5]],
         distribution=dict(kinds=dist, cases_with_mode_kind=stat_modes, n_modes={k: sum(1 for c in kept if len(c["modes"]) == k) for k in (1, 2, 3, 4)}),
         disagreements=disagreements,
@@ -489,3 +509,53 @@ def replay_mask(case):
     for f in laws:
         print(f["what"])
     return bool(bad) or bool(laws)
+
+
+# ---------------------------------------------------------------------------
+# NumberOrderedForm.filter_terms directly (C08 tie): conditions that differ in several modes
+
+
+def gen_filter_case(rng):
+    modes = sorted([rng.choice("BBL"), rng.choice("BLSF")] + [rng.choice("BLSF")] * rng.randint(0, 1), key=nc.KIND_ORDER.index)
+    x = nc.rand_sum(rng, modes, 4, 3)
+    if rng.random() < 0.6:  # make sure cross terms of two modes occur
+        i, j = rng.sample(range(len(modes)), 2)
+        x = ["add", x, ["add", ["mul", ["op", i, 1], ["op", j, 0]], ["mul", ["op", i, 0], ["op", j, rng.randint(0, 1)]]]]
+    ops = nc.make_ops(modes)
+    keys = [tuple(int(p) for p in k) for k, _ in nc.build_impl(x, ops).args[1]]
+    conds = []
+    for _ in range(rng.randint(2, 4)):
+        if keys and rng.random() < 0.8:
+            k = list(rng.choice(keys))
+            if rng.random() < 0.4:  # recombine the powers of two existing terms: matches only if the matcher works per MODE
+                k2 = rng.choice(keys)
+                m = rng.randrange(len(modes))
+                k[m] = k2[m]
+            c = [["eq", v] for v in k]
+            if rng.random() < 0.3:
+                i = rng.randrange(len(modes))
+                if modes[i] in "BL":
+                    c[i] = ["gt", k[i] - 1] if rng.random() < 0.5 else ["lt", k[i] + 1]
+        else:
+            c = [rand_pat(rng, m in "SF") for m in modes]
+        if c not in conds:
+            conds.append(c)
+    return dict(modes=modes, x=x, y=["const", "0", "0"], conds=conds, keep=rng.random() < 0.5)
+
+
+FILTER_WITNESSES = [
+    # conditions (1,1), (-1,-1), (1,0), (-1,0): the product of the per-mode powers would also select a b†, a† b
+    dict(modes=["B", "B"], x=["add", ["add", ["mul", ["op", 0, 0], ["op", 1, 1]], ["mul", ["op", 0, 1], ["op", 1, 0]]],
+                             ["add", ["mul", ["op", 0, 0], ["op", 1, 0]], ["add", ["op", 0, 0], ["num", 1]]]], y=["const", "0", "0"],
+         conds=[[["eq", 1], ["eq", 1]], [["eq", -1], ["eq", -1]], [["eq", 1], ["eq", 0]], [["eq", -1], ["eq", 0]]], keep=k) for k in (True, False)
+]
+
+
+def _filter_worker(case):
+    try:
+        ops = nc.make_ops(case["modes"])
+        x = nc.expand_to(nc.build_impl(case["x"], ops), ops)
+        r = x.filter_terms(tuple(tuple(sym_pat(p) for p in c) for c in case["conds"]), case["keep"])
+        return dict(ok=True, keys=[[int(p) for p in k] for k, _ in r.args[1]], nterms=len(x.args[1]))
+    except Exception as e:  # noqa: BLE001
+        return dict(ok=False, err="%s: %s" % (type(e).__name__, str(e)[:300]))
